@@ -382,20 +382,36 @@ class ExtraCoords(ExtraCoordsABC):
         return new_extra_coords
 
     def _getitem_wcs(self, item):
-        item = sanitize_slices(item, self.wcs.pixel_n_dim)
+        # The item applies to the array axes of the cube, which the mapping relates
+        # to the pixel axes of the extra coords' WCS.
+        mapping = [int(m) for m in self.mapping]
+        if isinstance(item, (Integral, slice)):
+            item = (item,)
+        if self._ndcube is not None:
+            cube_ndim = len(self._ndcube.shape)
+        else:
+            n_items = len([i for i in item if i is not Ellipsis])
+            cube_ndim = max(n_items, max(mapping) + 1, self.wcs.pixel_n_dim)
+        item = sanitize_slices(item, cube_ndim)
+        # The item of each pixel axis of this WCS, in pixel order.
+        wcs_item = [item[cube_ndim - 1 - m] for m in mapping]
 
         # It's valid to slice down the EC such that there is nothing left,
         # which is not a valid way to slice the WCS
-        if len(item) == self.wcs.pixel_n_dim and all(isinstance(i, Integral) for i in item):
+        if all(isinstance(i, Integral) for i in wcs_item):
             return type(self)()
 
-        subwcs = self.wcs[item]
+        subwcs = self.wcs[tuple(wcs_item[::-1])]
 
-        new_mapping = [self.mapping[i] for i, subitem in enumerate(item) if not isinstance(subitem, Integral)]
+        # Cube pixel axes are renumbered for the cube axes dropped below them.
+        dropped_pixel_axes = [cube_ndim - 1 - i for i, subitem in enumerate(item)
+                              if isinstance(subitem, Integral)]
+        new_mapping = tuple(m - sum(d < m for d in dropped_pixel_axes)
+                            for m, subitem in zip(mapping, wcs_item) if not isinstance(subitem, Integral))
 
         new_ec = type(self)()
-        new_ec.wcs = subwcs
-        new_ec.mapping = new_mapping
+        new_ec._wcs = subwcs
+        new_ec._mapping = new_mapping
         return new_ec
 
     def __getitem__(self, item):
@@ -420,8 +436,9 @@ class ExtraCoords(ExtraCoordsABC):
         """
 
         if self._wcs:
-            if isinstance(self._wcs, SlicedLowLevelWCS):
-                return self._wcs.dropped_world_dimensions
+            low_level_wcs = getattr(self._wcs, "low_level_wcs", self._wcs)
+            if isinstance(low_level_wcs, SlicedLowLevelWCS):
+                return low_level_wcs.dropped_world_dimensions
 
         if self._lookup_tables or self._dropped_tables:
             mtc = MultipleTableCoordinate(*[lt[1] for lt in self._lookup_tables])
